@@ -262,9 +262,9 @@ class Gen:
     def type_ser(self, t):
         """is the type serializable as a whole (apischema builds the serialization method from the type; Unsupported alternatives of a union are skipped)"""
         k = t[0]
-        if k in ("opt", "undef"):
+        if k == "opt":
             return True
-        if k == "list":
+        if k in ("list", "undef"):   # the UndefinedType alternative is not a serialization alternative
             return self.type_ser(t[1])
         if k == "conv":
             return self.conv(t[1])["ser"]
